@@ -95,7 +95,22 @@ impl CaseResult {
     pub fn fail(&mut self, msg: impl Into<String>) {
         match self.outcome {
             Outcome::Fail(_) => {}
-            _ => self.outcome = Outcome::Fail(msg.into()),
+            _ => {
+                let mut m: String = msg.into();
+                if m.len() > 3000 {
+                    let total = m.len();
+                    let mut cut = 1500;
+                    while !m.is_char_boundary(cut) {
+                        cut -= 1;
+                    }
+                    let mut tail = total - 600;
+                    while !m.is_char_boundary(tail) {
+                        tail += 1;
+                    }
+                    m = format!("{} ...[{} bytes omitted]... {}", &m[..cut], tail - cut, &m[tail..]);
+                }
+                self.outcome = Outcome::Fail(m)
+            }
         }
     }
     pub fn known(&mut self, finding: &'static str, what: impl Into<String>) {
